@@ -17,6 +17,8 @@ LEVEL_TEXT = ("Shape analysis of the one traversal (MIR of parse_error.rs): firs
 LEVEL_NOTE = ("Not decided: that the walk returns exactly the outermost nodes in document order for all trees (a loop invariant over "
               "tree-sitter's cursor API would be needed) and the cited line/column values.  Trusted: TreeCursor navigation semantics.")
 
+WITNESSES = ["W4"]
+
 
 def _simple(c, g):
     m = re.match(r"^(?:Node|TreeCursor)::(\w+)\(", c)
